@@ -77,7 +77,7 @@ Section CGModel.
       | Some p =>
         let hp := Hop p in
         match sdiv rr (dot p hp) with
-        | None => Fail
+        | None => Stop           (* repaired code: <p, H p> == 0 (no curvature along p, or underflow): return the current solution *)
         | Some alpha =>
           Next (mkState (vadd (sx st) (vscale alpha p)) (vsub (sr st) (vscale alpha hp)) p (Some rr))
         end
